@@ -87,6 +87,15 @@ func checkOne(cf *commonFlags, spec *propertySpec, progs []*Prog, configs []stri
 			exit = 2
 		}
 	}
+	if os.Getenv("SONICSA_LIST") != "" {
+		for _, r := range results {
+			if r.Ctx != nil {
+				for _, o := range r.Ctx.Obls {
+					fmt.Printf("  %-13s %s  %s  -- %s\n", o.Status, o.Pos, o.Key, o.Detail)
+				}
+			}
+		}
+	}
 	printed := map[string]bool{}
 	for i, r := range results {
 		for _, o := range r.Known {
